@@ -1232,7 +1232,11 @@ def corpus_cases():
 
 def run(ctx):
     real = Real()
-    SEPARATE[0] = is_separate_directives_tree()
+    try:
+        SEPARATE[0] = is_separate_directives_tree()
+    except Exception as e:  # noqa: an unknown hook shape is already a broken obligation (extract); the direct oracle still runs
+        SEPARATE[0] = False
+        ctx.notes.append("skip hook of _nesting_levels has an unknown shape (%s): reference uses the joint reading" % e)
     ctx.extra["separate_directives"] = SEPARATE[0]
     budget0 = ctx.time_left()
     fixed = is_fixed_tree()
@@ -1977,7 +1981,10 @@ def doc_with_types(doc):
 def replay(ctx, data):
     inp = data.get("input", {})
     real = Real()
-    SEPARATE[0] = is_separate_directives_tree()
+    try:
+        SEPARATE[0] = is_separate_directives_tree()
+    except Exception:  # noqa
+        SEPARATE[0] = False
     if "decisive" in inp:
         return decisive_probe(ctx, real, k=inp["decisive"])
     if "forwarding_chain" in inp:
